@@ -275,7 +275,17 @@ Definition reflect_confirm (SO : stf_oracle) (s : wstate) (hh : N) (proof : list
 Definition reflect_step (SO : stf_oracle) (pre : wstate) (st : sstep) : list (N * N) :=
   let post := state_of (st_post st) in
   match st_op st with
-  | OpBatch txs R0 => if st_code st =? 0 then reflect_batch SO pre post txs R0 else []
+  | OpBatch txs R0 =>
+    if st_code st =? 0 then reflect_batch SO pre post txs R0
+    else if (st_code st =? 6) || (st_code st =? 5) then
+      (* rejected for a covenant reason although every input of every transaction is approved by a covenant
+         of the right hash in its own environment: sufficiency fails *)
+      match last_header_for SO (fun _ => R0) pre with
+      | Ok lh => flag 4 (negb ((covenant_detail SO pre lh txs =? 0)
+                               && forallb (fun k => match (created_coins (s_height pre) txs ∪ s_coins pre) !! k with Some _ => true | None => false end) (all_inputs txs))) 4
+      | _ => []
+      end
+    else []
   | OpSeal a R hdr => if st_code st =? 0 then reflect_seal SO pre post a else []
   | OpNext hdr => reflect_next pre post
   | OpConfirm hh proof c => reflect_confirm SO pre hh proof c
